@@ -1,7 +1,7 @@
 """C13 - results do not depend on how the game is written down.
 
 Exhaustive group action on small stopping games: every permutation of the non-initial states x every
-per-state transition order x three injective action renamings (full product on the degree-2 universe
+per-state transition order x four injective action renamings (full product on the degree-2 universe
 and the focus-state family, sum of generators on larger ones); metamorphic oracle relative to the base
 presentation, with the exact solver deciding tolerances and rounded-tie (KF-C04-1) classification.
 Boards: fixed permutation / reversal patterns with an engineering tolerance.
@@ -16,8 +16,11 @@ from ..repo import P1, P2, PR, roberta_generator as G, conditionalrewards as CR
 
 PROP = "C13"
 RENAMINGS = [None,
-             {"a": "b", "b": "a"},
-             {"a": "zeta", "b": "yota", "c": "xi", "d": "omega", "e": "alpha", "x": "m2", "y": "m1"}]
+             {"a": "ab", "ab": "a"},                                                              # swap two names
+             {"a": "zeta", "ab": "yota", "b": "xi", "ba": "omega", "aa": "alpha", "x": "m2", "y": "m1",  # fresh names, reverse alphabetical
+              "Green": "zz", "Yellow": "aa", "Down": "v", "Left": "l", "Right": "k"},
+             {"a": "go", "ab": "g", "b": "go_back", "ba": "o", "aa": "back", "x": "x1", "y": "x",        # names contained in one another
+              "Green": "Yellow", "Yellow": "Green", "Down": "Left", "Left": "Le", "Right": "Down"}]
 BOARD_TOL = 1e-3
 
 
@@ -325,7 +328,7 @@ def board_patterns(game):
     rot = tuple([0] + [1 + ((s - 1 + n // 2) % (n - 1)) for s in range(1, n)])
     inter = tuple([0] + [1 + ((3 * (s - 1)) % (n - 1)) if (n - 1) % 3 else 1 + ((s - 1) * 2) % (n - 1) if (n - 1) % 2 else s for s in range(1, n)])
     pats = [(rev, ident_o, None), (ident, rev_o, None), (rev, rev_o, RENAMINGS[2]), (rot, ident_o, None),
-            (rot, rev_o, None), (ident, ident_o, RENAMINGS[2])]
+            (rot, rev_o, None), (ident, ident_o, RENAMINGS[2]), (ident, ident_o, RENAMINGS[3])]
     if sorted(inter) == list(range(n)):
         pats.append((inter, ident_o, None))
         pats.append((inter, rev_o, RENAMINGS[2]))
@@ -431,7 +434,7 @@ def work_board(shard, acc):
 # ------------------------------------------------------------------------------------------------------ run
 
 RULE = ("for every stopping game of the listed universes: every permutation of the non-initial states x every per-state transition order "
-        "x 3 injective action renamings (mode 'product') or the sum of those generators plus the full reversal (mode 'sum'); each "
+        "x 4 injective action renamings (identity, a swap, fresh names, names contained in one another) (mode 'product') or the sum of those generators plus the full reversal (mode 'sum'); each "
         "transformed presentation is solved in both modes and compared with the base presentation (solvability, probabilities and "
         "rewards after renumbering, strategies after renaming in the new transition order); non-trivial = a game with states of "
         "different out-degree or more than 3 states (so that some presentation really differs); boards: 6-8 fixed patterns each")
